@@ -22,6 +22,7 @@ from measured import One, Quantity, Unit, conversions  # noqa: E402
 from measured import si  # noqa: E402
 
 rng = random.Random(seed)
+rng2 = random.Random(seed * 7919 + 13)
 
 # ---- pools: named units by dimension (no offset scales, no dimensionless ones)
 classes = {}
@@ -202,6 +203,21 @@ def step():
         op = rng.choice(["eq", "ne", "lt", "le", "gt", "ge"])
         guard(lambda: {"eq": lambda: x == y, "ne": lambda: x != y, "lt": lambda: x < y, "le": lambda: x <= y,
                        "gt": lambda: x > y, "ge": lambda: x >= y}[op]())
+        if rng2.random() < 0.5:
+            # the same value in the same unit with a magnitude of another kind: equal, not less, same hash
+            # (decided by a generator of its own, so that the rest of the program is what it was without this)
+            m = x.magnitude
+            twins = []
+            if isinstance(m, int):
+                twins = [float(m), Decimal(m)]
+            elif m == m and abs(m) < 2 ** 52 and m == int(m):
+                twins = [int(m)] + ([Decimal(int(m))] if isinstance(m, float) else [float(m)])
+            elif isinstance(m, float) and m == m and abs(m) < 1e15:
+                twins = [Decimal(m)]          # exact: Decimal(0.5) == 0.5
+            if twins:
+                z = rng2.choice(twins) * x.unit
+                guard(lambda: x == z)
+                guard(lambda: z < x)
     elif k < 0.995:
         declare_new()
     else:
